@@ -7,7 +7,7 @@ import re
 
 from ..astutil import attr_chain, call_attr, calls_in, conjuncts, guard_facts, unparse, walk_local
 from ..cfg import CFG
-from ..dataflow import params_of, reaching_defs, resolved_text
+from ..dataflow import ifexp_cases, params_of, reaching_defs, resolved_text
 from ..report import Finding, Report
 from ..srcindex import AnalysisError, Index
 
@@ -448,6 +448,10 @@ def check_disjoint_set(idx: Index, rep: Report) -> None:
                 cs, ck, cv = mine[0]
                 cvt = resolved_text(cfg, cv, cfg.node_of(cs))
                 want = {f"self._count[{rl}] + self._count[{rr}]", f"self._count[{rr}] + self._count[{rl}]"}
+                if cvt not in want and len(pst) == 1 and _choices(k, v, rl, rr) is not None:
+                    # the roles (new root, new child) are chosen by a conditional: decide each case
+                    if all(c_ in want for c_ in ifexp_cases(cvt)):
+                        cvt = next(iter(want))
                 if cvt not in want:
                     bad.append(("count-value", f"_count of the new root becomes `{cvt}`, must be the sum of both root counts"))
         if len(cst) > len(pst):
